@@ -62,17 +62,31 @@ contract(FC + "::CellCycleController.acquire_resource", "C14",
 REL_LOOP = "for resource_id in list(ctx.acquired_resources.keys())"
 contract(FC + "::CellCycleController.release_all_resources", "C14",
          params={"ctx": "obj:OperationContext"}, pre_state=ALIAS, callbacks=GRAPH, raises=[],
+         ghost_params={"r0": "str"},
          loops={REL_LOOP: {
-             "invariant": ["True"],
+             "invariant": [
+                 # whole-registry statement for an ARBITRARY resource id r0: a tracked resource whose turn has passed is not owned by the operation ...
+                 "implies(in_visit(r0) and visit_index(r0) < _k and r0 in self.resources, self.resources[r0].owner != ctx.operation_id)",
+                 # ... and a resource the operation does not track is exactly as it was (owner and hold count)
+                 "implies(not in_visit(r0) and r0 in self.resources, self.resources[r0].owner == old(self).resources[r0].owner and "
+                 "self.resources[r0].hold_count == old(self).resources[r0].hold_count)",
+                 "in_visit(r0) == (r0 in old(ctx).acquired_resources)"],
              "step": {
                  # per resource the operation tracked: after its turn it is neither owned by the operation nor tracked any more
                  "each-tracked-resource-fully-released": "implies(resource_id in self.resources, self.resources[resource_id].owner != ctx.operation_id)",   # tracked lock IS the registered one (alias)
              },
-             "property_level": ["each-tracked-resource-fully-released"],
+             "property_level": ["each-tracked-resource-fully-released",
+                                "implies(in_visit(r0) and visit_index(r0) < _k and r0 in self.resources, self.resources[r0].owner != ctx.operation_id)",
+                                "implies(not in_visit(r0) and r0 in self.resources, self.resources[r0].owner == old(self).resources[r0].owner and "
+                                "self.resources[r0].hold_count == old(self).resources[r0].hold_count)"],
              "exhaustive": True,      # the per-resource clause speaks about every tracked resource only if no element is skipped
              "modifies": [],
          }},
-         ensures={})
+         ensures={
+             "no-tracked-resource-is-still-owned": "implies(r0 in old(ctx).acquired_resources and r0 in self.resources, self.resources[r0].owner != ctx.operation_id)",
+             "untracked-resources-are-untouched": "implies(r0 not in old(ctx).acquired_resources and r0 in self.resources, "
+                                                  "self.resources[r0].owner == old(self).resources[r0].owner and "
+                                                  "self.resources[r0].hold_count == old(self).resources[r0].hold_count)"})
 
 contract(FC + "::CellCycleController.complete_operation", "C14",
          params={"ctx": "obj:OperationContext"}, pre_state=ALIAS, raises=[],
